@@ -114,7 +114,9 @@ impl FunctionExpression for DecodeCharsetFn {
         let value = self.value.resolve(ctx)?.try_bytes()?;
         let to_charset = self.to_charset.resolve(ctx)?.try_bytes()?;
 
-        encode_charset(from_utf8(value.as_bytes()).unwrap(), to_charset.as_bytes())
+        let value = from_utf8(value.as_bytes()).map_err(|err| format!("value is not valid UTF-8: {err}"))?;
+
+        encode_charset(value, to_charset.as_bytes())
     }
 
     fn type_def(&self, _state: &TypeState) -> TypeDef {
